@@ -154,6 +154,9 @@ def make_policy(p: dict | None, step_name: str) -> Any:
         inner = mk_retry_policy(stop=RP.stop_after_attempt(p["n"]), wait=RP.wait_fixed(p.get("wait", 0)))
     elif kind == "delay":
         inner = mk_retry_policy(stop=RP.stop_after_delay(p["d"]), wait=RP.wait_fixed(p.get("wait", 1)))
+    elif kind == "before_delay":
+        # gives up when the NEXT sleep would end past the budget: elapsed + upcoming delay >= d
+        inner = mk_retry_policy(stop=RP.stop_before_delay(p["d"]), wait=RP.wait_fixed(p.get("wait", 1)))
     elif kind == "chain":
         inner = mk_retry_policy(stop=RP.stop_after_attempt(p["n"]), wait=RP.wait_chain(*[RP.wait_fixed(w) for w in p["waits"]]))
     elif kind == "chain_exp":
